@@ -324,6 +324,34 @@ fn run_and_digest(ctx: &Ctx, e: &mut Emu, m128: bool, s: &MState, case: &serde_j
     }
     h = fnv_mix(h, fnv(&rig::canvas(e).pix));
     h = fnv_mix(h, fnv(&rig::border(e).pix));
+    // "every RAM page as seen by the display": the 128K screen that is NOT displayed must have
+    // reached the display side too. Flip bit 3 of the latch (when paging is not locked) without
+    // rewriting anything and look at the picture (after the digest: the flip is not part of it).
+    if m128 && s.port7ffd & 0x20 == 0 {
+        let regs = rig::regs_view(e.verif_cpu());
+        rig::cpu_out(e, OUTCODE, 0x7FFD, s.port7ffd ^ 0x08);
+        rig::set_regs(e.verif_cpu(), &regs);
+        let off = (OUTCODE & 0x3FFF) as usize;
+        rig::poke(e, OUTCODE, &s.banks[2][off..off + 2]);
+        let f0 = e.verif_total_frames();
+        let mut guard = 0;
+        while e.verif_total_frames() < f0 + 2 && guard < 200_000 {
+            rig::step(e);
+            guard += 1;
+        }
+        let other = if shown == 5 { 7 } else { 5 };
+        let mem = &s.banks[other][..6912];
+        let pix = &rig::canvas(e).pix;
+        if pix[..] != decode_screen(mem, false)[..] && pix[..] != decode_screen(mem, true)[..] {
+            let d0 = decode_screen(mem, false);
+            let i = (0..pix.len()).find(|i| pix[*i] != d0[*i]).unwrap_or(0);
+            ctx.violation(
+                &format!("C14:display-other-screen:{}", enc_class(enc)),
+                &format!("{}: after the load the program flips bit 3 of 7FFD (no memory write): the picture is not the decode of the file's bank {}: pixel ({},{})", enc_name(enc), other, i % 256, i / 256),
+                case.clone(),
+            );
+        }
+    }
     h
 }
 
